@@ -1,7 +1,15 @@
 package driver
 
-import "verif/checks/c01"
+import (
+	"verif/checks/c01"
+	"verif/checks/c04"
+	"verif/checks/c05"
+	"verif/checks/c14"
+)
 
 func init() {
 	Checks["C01"] = c01.Check
+	Checks["C04"] = c04.Check
+	Checks["C05"] = c05.Check
+	Checks["C14"] = c14.Check
 }
